@@ -10,19 +10,28 @@ RULE = ("every base program up to size n in which <=k constant leaves are replac
         "blocks then raises, synchronously re-enters itself), under every flush schedule, both builds. The call sites "
         "therefore land in the same yield, in later steps while the first call is blocked between its flushes, and after "
         "completion. Oracle R7 (in-flight map): identity of every returned task, no sharing across keys/functions/instances, "
-        "no completed task left in the table. non-trivial = programs with >=2 deduplicated call sites")
+        "no completed task left in the table. Plus (HISTX) every history up to length 5 (quick) / 7 (thorough) over {call positional/keyword/default, call other key, dirty, dirty other key, complete the i-th task} on one deduplicated function. non-trivial = programs with >=2 deduplicated call sites")
 EXPLANATION = "stateless DFS over flush schedules of programs containing deduplicated calls; every call compared with the in-flight-map reference R7"
 ASSUMPTIONS = ["single thread (the thread component of the key is C16's subject)",
                "bodies are the five harness body kinds; keys are small integers"]
 MENU = ["leaf:dd", "ins:ddirty", "ins:raise", "wrap:try", "leaf:sh", "ins:sync"]
-CATS = ["dedup-identity", "dedup-cross-key", "dedup-table-residue", "resumed-uncomputed", "hang", "worker-died"]
+CATS = ["dedup-identity", "dedup-cross-key", "dedup-table-residue", "dedup-runcount", "resumed-uncomputed", "hang", "worker-died"]
 BODIES = ["ret", "y1", "y2", "y1raise", "selfsync"]
 LADDER = {"quick": [(4, 1, ["call"]), (3, 2, ["call"])],
           "thorough": [(5, 1, ["call"]), (4, 2, ["call"], {"only_bodies": ["y2"]}), (3, 2, ["call"])]}
 SPEC = {"r1": False, "r2": False, "need": ["dd"]}
 
 
+HIST_OPS = ["call_pos", "call_kw", "call_def", "call_other", "dirty", "dirty_other", "complete0", "complete1", "complete2"]
+HIST_DEPTH = {"quick": 5, "thorough": 7}
+
+
 def jobs(tier, seed):
+    # operation histories on one deduplicated function, no program around it (HISTX style): every sequence over
+    # HIST_OPS up to the depth bound, sliced by the first operation
+    for first in range(len(HIST_OPS)):
+        for second in range(len(HIST_OPS)):
+            yield {"hist": [first, second], "depth": HIST_DEPTH[tier]}
     for b in BODIES:
         for j in progx.ladder_jobs(LADDER[tier], MENU, CATS, SPEC):
             if "only_bodies" in j and b not in j["only_bodies"]:
@@ -38,13 +47,117 @@ def _count(prog, r, exp, r1, spec, conv, out):
     pass
 
 
+def _run_history(ops):
+    """one history on fresh real objects; returns list of (sig, msg)"""
+    import asynq
+    from asynq.tools import deduplicate, DeduplicateDecorator
+    from asynq.batching import DebugBatchItem, _debug_batch_state
+    import asynq.scheduler as sched
+    sched.reset()
+    DeduplicateDecorator.tasks.clear()
+    _debug_batch_state.batches.clear()
+    runs = []
+
+    @deduplicate()
+    @asynq.asynq()
+    def f(key, mode=0):
+        runs.append(key)
+        n = len(runs)
+        yield DebugBatchItem("c12")
+        return ("v", key, n)
+
+    tasks = []      # every task object handed out, in order of first appearance
+    inflight = {}   # R7: key -> task (created and not complete, not dirtied)
+    out = []
+    for i, op in enumerate(ops):
+        if op.startswith("call"):
+            key = 2 if op == "call_other" else 1
+            prev = inflight.get(key)
+            live = prev is not None and not prev.is_computed()
+            if op == "call_pos":
+                t = f.asynq(key, 0)
+            elif op == "call_kw":
+                t = f.asynq(key=key, mode=0)
+            else:
+                t = f.asynq(key)
+            if live and t is not prev:
+                out.append(("dedup-identity", "history %s: call #%d for key %d returned a new task although the task created earlier for that key is still in flight (created, not complete, not dirtied)" % (ops, i, key)))
+                break
+            if not live and prev is not None and t is prev:
+                out.append(("dedup-identity", "history %s: call #%d returned the task that had already completed" % (ops, i)))
+                break
+            for k2, t2 in inflight.items():
+                if k2 != key and t2 is t:
+                    out.append(("dedup-cross-key", "history %s: call #%d for key %d returned the task of key %d" % (ops, i, key, k2)))
+            if not live:
+                if any(t is x for x in tasks):
+                    out.append(("dedup-identity", "history %s: call #%d returned an old task object" % (ops, i)))
+                    break
+                inflight[key] = t
+            if not any(t is x for x in tasks):
+                tasks.append(t)
+        elif op == "dirty":
+            f.dirty(1)
+            inflight.pop(1, None)
+        elif op == "dirty_other":
+            f.dirty(2)
+            inflight.pop(2, None)
+        else:
+            j = int(op[-1])
+            if j < len(tasks):
+                before = len(runs)
+                started = tasks[j].is_computed()
+                v = tasks[j].value()
+                if not started and len(runs) - before > 1:
+                    out.append(("dedup-runcount", "history %s: completing task %d ran the body %d times" % (ops, j, len(runs) - before)))
+        for k, t in DeduplicateDecorator.tasks.items():
+            if t.is_computed():
+                out.append(("dedup-table-residue", "history %s: after step %d the table holds a completed task" % (ops, i)))
+                break
+        if out:
+            break
+    return out
+
+
+def _hist_job(job, env):
+    import itertools
+    import time
+    out = {"evals": 0, "states": 0, "transitions": 0, "nontrivial": 0, "violations": [], "counters": {}, "samples": []}
+    head = [HIST_OPS[i] for i in job["hist"]]
+    seen = set()
+    for extra in range(0, job["depth"] - 1):
+        for tail in itertools.product(HIST_OPS, repeat=extra):
+            ops = head + list(tail)
+            env["hb"][0] = time.time()
+            vs = _run_history(ops)
+            out["evals"] += 1
+            out["states"] += 1
+            out["transitions"] += len(ops)
+            if sum(1 for o in ops if o.startswith("call")) >= 2:
+                out["nontrivial"] += 1
+            for sig, msg in vs:
+                if sig not in seen:
+                    seen.add(sig)
+                    out["violations"].append({"sig": sig, "msg": msg, "features": ["hist"] + sorted(set(o.rstrip("012") for o in ops)),
+                                              "case": {"hist_ops": ops}})
+    out["counters"]["histories"] = out["evals"]
+    if job["hist"] == [0, 4]:
+        out["samples"].append({"history": head + ["call_pos", "complete0", "call_pos"]})
+    return out
+
+
 def run(job, env):
+    if "hist" in job:
+        return _hist_job(job, env)
     return progx.run_spec(job, env)
 
 
 def replay(case, env):
+    if "hist_ops" in case:
+        return [{"sig": a, "msg": b} for a, b in _run_history(case["hist_ops"])]
     return progx.replay_case(case, env)
 
 
 def finish(acc, tier):
-    return {"bounds": {"ladder": LADDER[tier], "menu": MENU, "body kinds": BODIES, "call alternatives": [list(a) for a in gen.DD_ALTS]}}
+    return {"bounds": {"ladder": LADDER[tier], "menu": MENU, "body kinds": BODIES, "call alternatives": [list(a) for a in gen.DD_ALTS],
+                       "operation histories": {"ops": HIST_OPS, "depth": HIST_DEPTH[tier]}}}
